@@ -31,6 +31,10 @@ type PlanC20 struct {
 	// EndEarly: 1 = the sending party finishes the session right after its last send, 2 = it closes
 	// its connection instead; either way handlers may still be running when the session ends.
 	EndEarly int `json:"end_early,omitempty"`
+	// LatePC: before the stream, the receiving side gives up on a command request of its own
+	// (ProcessCommand with a 50 ms context, never answered in time); the stream then carries a
+	// response bearing that id, which by then is an inbound envelope like any other.
+	LatePC bool `json:"late_pc,omitempty"`
 }
 
 func genC20(t *simrt.Tape, tier string) interface{} {
@@ -59,6 +63,7 @@ func genC20(t *simrt.Tape, tier string) interface{} {
 	}
 	p.GapMs = []int{0, 0, 1, 20}[t.Draw(4)]
 	p.EndEarly = []int{0, 0, 0, 1, 1, 2}[t.Draw(6)]
+	p.LatePC = t.Draw(4) == 0
 	return p
 }
 
@@ -256,9 +261,40 @@ func runC20(w *World, pi interface{}) {
 			}
 		}()
 	}
+	var lateResp *Env
+	if p.LatePC {
+		req := &lime.RequestCommand{}
+		req.ID = "in.9999"
+		req.Method = lime.CommandMethodGet
+		req.SetURIString("/late")
+		pctx, pcancel := context.WithTimeout(context.Background(), 50*time.Millisecond)
+		var perr error
+		w.Bounded("the abandoned ProcessCommand", time.Minute, func() {
+			if p.Role == "client" {
+				_, perr = ch.ProcessCommand(pctx, req)
+			} else {
+				_, perr = sch.ProcessCommand(pctx, req)
+			}
+		})
+		pcancel()
+		if perr != nil {
+			w.Count("abandoned-command-before-the-stream")
+			lateResp = BuildEnvelope(EnvSpec{Kind: KResponse, Seed: 77, Size: 10}, "in.9999")
+		}
+	}
 	var sent []*Env
 	for i, es := range p.Envs {
 		e := BuildEnvelope(es, fmt.Sprintf("in.%d", i))
+		if lateResp != nil && i == len(p.Envs)/2 {
+			// the late answer to the abandoned command travels in the middle of the stream
+			sctx, scancel := context.WithTimeout(context.Background(), 30*time.Second)
+			err := sendVia(sctx, sender, lateResp)
+			scancel()
+			if err != nil {
+				break
+			}
+			sent = append(sent, lateResp)
+		}
 		sctx, scancel := context.WithTimeout(context.Background(), 30*time.Second)
 		err := sendVia(sctx, sender, e)
 		scancel()
@@ -396,7 +432,7 @@ func init() {
 		Run:    runC20,
 		MaxSim: 2 * time.Hour,
 		Rule: "plans = (handler table: 0-4 handlers per kind, predicate from {nil, always, never, even/odd sequence number, kind-specific field test}, optional error at the k-th call; on the server (ServerBuilder) or on a client-side EnvelopeMux; " +
-			"handler durations 0/3/150 ms; 1-50 inbound envelopes of all four kinds over tcp/tcp+tls/ws/wss/in-process with buffer sizes incl. 0; in a third of the runs the sending party finishes the session or drops the connection right after its last send, while handlers are still running); oracle: exactly one invocation, of the earliest-registered matching handler, envelope unaltered; none when nothing matches and later ones still dispatched; " +
+			"handler durations 0/3/150 ms; 1-50 inbound envelopes of all four kinds over tcp/tcp+tls/ws/wss/in-process with buffer sizes incl. 0; in a third of the runs the sending party finishes the session or drops the connection right after its last send, while handlers are still running; in a quarter of the runs the receiving side first gives up on a command of its own and the stream carries the late response to it); oracle: exactly one invocation, of the earliest-registered matching handler, envelope unaltered; none when nothing matches and later ones still dispatched; " +
 			"nothing after a handler error, and the server finishes the session; non-trivial = session established; distinct = distinct (plan JSON, event-log hash)",
 	})
 }
